@@ -85,7 +85,9 @@ def guard(ctx):
         tests = activation_tests(F, body)
         for c in sks:
             m += 1
-            ok = any(te is not None and body.edge_dominates(te, c.b) for (_b, te) in tests)
+            # every path passes the true edge of some activation test (an or-pattern with a guard tests once per alternative)
+            tes = [te for (_b, te) in tests if te is not None]
+            ok = bool(tes) and body.edges_dominate(tes, c.b)
             ctx.check(ok, body.key, 'session_key<=activated',
                       'a master secret is tried (session_key, line %d) without a dominating test of its right\'s '
                       'activation flag: deactivated rights would be recovered and re-encapsulated' % c.ln,
@@ -130,7 +132,8 @@ def wiring(ctx):
               'encaps is not given the caller\'s public key', 'mpk <- mpk', en.where())
     # returns encaps's result (fresh secret), not the recovered one
     ret = copy_chain_sources(body, 0, through_calls=IDENTITY_CALLS)
-    ret = [r for r in ret if not (r[0] == 'call' and r[1].is_(r'^std::ops::FromResidual::from_residual$'))]
+    ret = [r for r in ret if not (r[0] == 'call' and r[1].is_(r'^std::ops::FromResidual::from_residual$'))
+           and not (r[0] == 'agg' and isinstance(r[1], dict) and r[1].get('adt') == 'std::result::Result' and r[1].get('variant') == 'Err')]
     okret = bool(ret) and all(r[0] == 'call' and r[1] is en for r in ret)
     ctx.check(okret, body.key, 'returns-fresh',
               'recaps does not return the result of encaps unchanged (the recovered secret may leak into it)',
@@ -226,34 +229,74 @@ def every_secret_tried(ctx):
 
 @rule('C18', 'recovery-unconditional', configs=('default', 'p256'))
 def recovery_unconditional(ctx):
-    """Every right whose secret opens the encapsulation is recovered: in the opening closure of full_decaps the insertion into
-    the right set is conditioned only by the tag comparison, the trap comparison and error propagation — not by state that
-    changes once a first right has been found."""
+    """Every right whose secret opens the encapsulation is recovered: no condition that decides whether the insertion into the
+    right set runs depends on the recovery state itself (the set of rights found so far, the session key found so far) —
+    state that changes once a first right has been found."""
     from .c02 import eq_guards
+    from ..facts import switch_on, field_path, proj_names
     F = ctx.F
     n = 0
     for body in F.family('core::primitives::full_decaps'):
         ins = [c for c in body.calls(r'^std::collections::HashSet::<[^>]*>::insert$') if 'Right' in c.full]
         if not ins:
             continue
-        eqs = set()
-        for (c, te, fe) in eq_guards(body):
-            for (sb, neg) in __import__('analyses.facts', fromlist=['switch_on']).switch_on(body, c.dest['l']):
-                eqs.add(sb)
-        tries = set(ts.sw_block for ts in lib.try_sites(body) if ts.sw_block is not None)
+
+        def key_of(pl):
+            cur = body.through_ref(pl)
+            for _ in range(6):
+                # a copy of a captured reference (`_r = copy (*_1).enc_ss; (*_r) = ..`) is that captured place
+                if not (cur['p'] and cur['p'][0] == '*'):
+                    break
+                d = lib.single_def(body, cur['l'])
+                if d is None or d.kind != 'assign' or d.rv['k'] != 'use' or not is_place(d.rv['a']):
+                    break
+                q = op_place(d.rv['a'])
+                cur = body.through_ref({'l': q['l'], 'p': list(q['p']) + list(cur['p'])})
+            return (cur['l'], tuple(field_path(cur))[:1])
+        # recovery state: the right set, and every place a Some(..) / the insertion result is stored into on a success path
+        state = set()
+        guard_edges = [te for (_c, te, _fe) in eq_guards(body)]
+        for c in ins:
+            if is_place(c.args[0]):
+                state.add(key_of({'l': op_local(c.args[0]), 'p': ['*']}))
+        success = set()
+        for e in guard_edges:
+            success |= body.dominated_by_edge(e)
+        after_ins = set()
+        for c in ins:
+            after_ins |= body.dominated_by_block(c.b)
+        for b in sorted(success | after_ins):
+            for st in body.stmts(b):
+                rv, lhs = st['rv'], st['lhs']
+                if '*' in proj_names(lhs) and 'std::option::Option<' in (st.get('ty') or body.local_ty(op_local(rv['a'])) if rv['k'] == 'use' and is_place(rv['a']) else
+                                                                          ('std::option::Option<' if rv['k'] == 'agg' and rv.get('adt') == 'std::option::Option' else '')):
+                    state.add(key_of(lhs))
+        # locals that hold the state in the root function (written where an insertion happens): `enc_ss = Some(ss)` next to it
+        for b in sorted(after_ins):
+            for st in body.stmts(b):
+                rv, lhs = st['rv'], st['lhs']
+                if rv['k'] == 'agg' and rv.get('adt') == 'std::option::Option' and rv['variant'] == 'Some' \
+                        and not lhs['p'] and body.var_name(lhs['l']):
+                    state.add((lhs['l'], ()))
         for c in ins:
             n += 1
             other = []
             for b in sorted(body.live_blocks()):
                 t = body.term(b)
-                if t['k'] != 'switch' or b in eqs or b in tries:
+                if t['k'] != 'switch' or len(body.succs[b]) < 2:
                     continue
-                for s in body.succs[b]:
-                    if len(body.succs[b]) > 1 and body.edge_dominates((b, s), c.b):
-                        # drop-flag switches and the like do not dominate; a real extra condition does
-                        other.append((b, t['ln']))
+                # only a switch the insertion is reachable from can condition it: cheap pre-filter before the dominance query
+                if c.b not in body.reach(b) or not any(body.edge_dominates((b, s), c.b) for s in body.succs[b]):
+                    continue
+                sl = backward_slice(body, [t['d']], follow_mutarg=True)
+                dep = [pl for pl in sl.places if key_of(pl) in state or (key_of(pl)[0], ()) in state]
+                dep += [c2 for c2 in sl.calls if c2.args and is_place(c2.args[0]) and
+                        (key_of({'l': op_local(c2.args[0]), 'p': ['*']}) in state)]
+                if dep:
+                    other.append((b, t['ln']))
             ctx.check(not other, 'core::primitives::full_decaps', 'rights.insert conditioned only by tag / trap checks',
-                      'the recovery of a right (line %d) also depends on another condition (switch at line %s): rights opened after the '
-                      'first one may be dropped from the re-encapsulation' % (c.ln, [ln for _b, ln in other][:2]),
-                      'guards: tag ==, traps ==, `?`', c.where())
+                      'the recovery of a right (line %d) depends on a condition (switch at line %s) computed from the recovery state '
+                      '(rights / session key found so far): rights opened after the first one may be dropped from the '
+                      're-encapsulation' % (c.ln, [ln for _b, ln in other][:2]),
+                      'no dominating condition reads the recovery state', c.where())
     ctx.floor(n, 1, 'right insertions in full_decaps')
